@@ -992,7 +992,7 @@ func UnmarshalEnumValues(flags bool, value *yaml.Node) (*EnumValues, error) {
 		for i := 0; i < len(value.Content); i += 2 {
 			k := value.Content[i]
 			v := value.Content[i+1]
-			if k.Tag != "!!str" && v.Tag != "!!int" {
+			if k.Tag != "!!str" {
 				goto err
 			}
 
@@ -1036,7 +1036,7 @@ func UnmarshalEnumValues(flags bool, value *yaml.Node) (*EnumValues, error) {
 				}
 			} else {
 				if err := val.IntegerValue.UnmarshalText([]byte(v.Value)); err != nil {
-					return nil, err
+					return nil, parseError(v, "enum or flag value must be an integer or empty")
 				}
 			}
 
